@@ -7,6 +7,9 @@ import KdVerif.Gen.Host
 import KdVerif.Proofs.PyIRFlTraces
 import KdVerif.Gen.PyIRFl
 import KdVerif.Proofs.PyIRCsPipeline
+import KdVerif.Model.EndToEnd
+import KdVerif.Gen.PyIRCli
+import KdVerif.Proofs.PyIRCli
 /-
   C13 — trace filters commute with decoding and leave no residue in the parser.
 
@@ -689,5 +692,156 @@ example :
       ([.callstack ⟨3, 5, [⟨0x5, none, none⟩, ⟨0x11, some [1], some 1⟩, ⟨0x31, some [3], some 1⟩]⟩],
        .ok ⟨[0x10, 0x30], [[1], [3]]⟩) := by
   decide +kernel
+
+end KdVerif.C13
+
+/-! ### Translation tie: the `traces` / `callstacks` / `logs` commands in front of the trace filters
+
+  (`tools/gen_pyir_cli.py` → `Gen/PyIRCli.lean`; IR and interpreter `Model/PyIRCli`; expected terms `Spec/PyIRCliExpected`;
+  see `Props/C12` for the `kevents` and table commands.)  The command callbacks of `pykdebugparser/__main__.py`, translated
+  from the source text on every run and interpreted from what click hands over (`Given`): which option goes to which
+  attribute of a fresh parser object (`__init__`, translated too, supplies every attribute a command does not assign),
+  which `formatted_*` method is called on the dump, that its result goes through `print_with_count(…, count)`.  `World` is
+  the meaning of the `formatted_*` methods as a function of the object's attributes and the dump; `configOf` is the filter
+  configuration (`Filters.Cfg`) the hand models `TracePipeline.traces` / `callstacks` / `Filters.osLogEvents` take. -/
+namespace KdVerif.C13
+open KdVerif.Filters KdVerif.PyIRCli
+
+/-- **The terms the translator generates for the glue of this property are the expected ones** (`Spec/PyIRCliExpected`,
+    quoting the Python): `print_with_count`, the three commands with their option declarations, `__init__`, the maps;
+    nothing met that the translator could not express. -/
+theorem cli_source_is_expected_ir :
+    Gen.PyIRCli.printWithCount = PyIRCli.Expected.printWithCount ∧
+    Gen.PyIRCli.traces = PyIRCli.Expected.traces ∧
+    Gen.PyIRCli.callstacks = PyIRCli.Expected.callstacks ∧
+    Gen.PyIRCli.logs = PyIRCli.Expected.logs ∧
+    Gen.PyIRCli.init = PyIRCli.Expected.init ∧
+    Gen.PyIRCli.formattedKevents = PyIRCli.Expected.formattedKevents ∧
+    Gen.PyIRCli.formattedTraces = PyIRCli.Expected.formattedTraces ∧
+    Gen.PyIRCli.formattedCallstacks = PyIRCli.Expected.formattedCallstacks ∧
+    Gen.PyIRCli.formattedLogs = PyIRCli.Expected.formattedLogs ∧
+    Gen.PyIRCli.notes = [] := by decide
+
+/-- the generated program record is the expected one -/
+theorem cli_prog_is_expected : Gen.PyIRCli.prog = PyIRCli.Expected.prog := by
+  obtain ⟨h1, _, _, _, h2, h3, h4, h5, h6, _⟩ := cli_source_is_expected_ir
+  simp only [Gen.PyIRCli.prog, PyIRCli.Expected.prog, h1, h2, h3, h4, h5, h6]
+
+/-- **The `traces` command of the source, interpreted** (any meaning `W` of `formatted_traces`; every combination of the
+    seven options): it prints `print_with_count(parser.formatted_traces(dump), count)` for the parser object
+    `tracesObj o` — `o` the option values in force with the declared defaults (`count = -1`, no thread / process filter,
+    no class / subclass value, `show_tid = False`, `color = True`) —, whose attributes read as EXACTLY `configOf o`
+    (`--tid` → `filter_tid`, `--process` → `filter_process`, `-cf` → `filter_class`, `-sf` → `filter_subclass`, both as
+    fresh lists in the order given), `showOf o`, colour `o.color`; no wall-clock parameter, empty tables. -/
+theorem traces_command_ir_eq_model {δ τ : Type} (W : World δ τ) (g : Given) (dump : δ) :
+    run Gen.PyIRCli.prog W Gen.PyIRCli.traces g.args dump =
+      pwcResult (W.formatted "formatted_traces" (tracesObj (Opts.ofGiven g)) dump) (Opts.ofGiven g).count ∧
+    cfgOfObj (tracesObj (Opts.ofGiven g)) = some (configOf (Opts.ofGiven g)) ∧
+    showOfObj (tracesObj (Opts.ofGiven g)) = some (showOf (Opts.ofGiven g)) ∧
+    colorOfObj (tracesObj (Opts.ofGiven g)) = some (Opts.ofGiven g).color ∧
+    wallClockUnset (tracesObj (Opts.ofGiven g)) = true ∧ tablesEmpty (tracesObj (Opts.ofGiven g)) = true := by
+  refine ⟨?_, cfg_tracesObj _, show_objWith .., color_objWith .., (unset_objWith ..).1, (unset_objWith ..).2⟩
+  rw [cli_prog_is_expected, cli_source_is_expected_ir.2.1]; exact run_traces_expected W g dump
+
+/-- `formatted_traces` as the composed hand model has it (`EndToEnd.formattedTraces`: container parser → event filter →
+    `TracesParser` → post-filters → `_format_trace`, colour OFF): configured by the object's filter attributes and column
+    switches, on a parser whose tables are empty; with colour on the lines go through pygments, outside that model. -/
+def tracesWorld (env : Trace.Env) (plist : Bytes → Option PView) : World Bytes Unit :=
+  { formatted := fun m o file =>
+      if m = "formatted_traces" then
+        match cfgOfObj o, showOfObj o, colorOfObj o, tablesEmpty o with
+        | some cfg, some sh, some false, true => EndToEnd.formattedTraces env { cfg := cfg } sh plist file
+        | _, _, _, _ => ([], some .unmodelled)
+      else ([], some .attributeError)
+    parseAll := fun _ => .error .unmodelled
+    jsonDumps := fun _ _ _ => .error .unmodelled }
+
+/-- **`traces --no-color` = `print_with_count` of the end-to-end hand model under `configOf`**: for every dump (any byte
+    string) the command prints the first `count` lines (all for `count < 0`) of
+    `EndToEnd.formattedTraces env {cfg := configOf o} (showOf o) plist file`, and the exception that model ends with
+    surfaces unless the loop broke first. -/
+theorem traces_command_ir_eq_e2e (env : Trace.Env) (plist : Bytes → Option PView) (g : Given) (hc : g.color = some false)
+    (file : Bytes) :
+    run Gen.PyIRCli.prog (tracesWorld env plist) Gen.PyIRCli.traces g.args file =
+      pwcResult (EndToEnd.formattedTraces env { cfg := configOf (Opts.ofGiven g) } (showOf (Opts.ofGiven g)) plist file)
+        (Opts.ofGiven g).count := by
+  obtain ⟨h, hcfg, hsh, hcol, _, htab⟩ := traces_command_ir_eq_model (tracesWorld env plist) g file
+  have hcol' : colorOfObj (tracesObj (Opts.ofGiven g)) = some false := by rw [hcol]; simp [Opts.ofGiven, hc]
+  rw [h]
+  simp only [tracesWorld, hcfg, hsh, hcol', htab, if_true]
+
+/-- **The `callstacks` command of the source, interpreted**: `--tid`, `--process`, `--show-tid`, `-c` (no class /
+    subclass / colour option: given one, click rejects the command line); the object handed to `formatted_callstacks`
+    reads as `configOf o` with the EMPTY class and subclass lists of `__init__`, `showOf o`, colour on. -/
+theorem callstacks_command_ir_eq_model {δ τ : Type} (W : World δ τ) (g : Given) (hcf : g.classFilters = [])
+    (hsf : g.subclassFilters = []) (hc : g.color = none) (dump : δ) :
+    run Gen.PyIRCli.prog W Gen.PyIRCli.callstacks g.args dump =
+      pwcResult (W.formatted "formatted_callstacks" (plainObj (Opts.ofGiven g)) dump) (Opts.ofGiven g).count ∧
+    cfgOfObj (plainObj (Opts.ofGiven g)) = some (configOf (Opts.ofGiven g)) ∧
+    showOfObj (plainObj (Opts.ofGiven g)) = some (showOf (Opts.ofGiven g)) ∧
+    colorOfObj (plainObj (Opts.ofGiven g)) = some true ∧
+    wallClockUnset (plainObj (Opts.ofGiven g)) = true ∧ tablesEmpty (plainObj (Opts.ofGiven g)) = true := by
+  refine ⟨?_, ?_, show_objWith .., color_objWith .., (unset_objWith ..).1, (unset_objWith ..).2⟩
+  · rw [cli_prog_is_expected, cli_source_is_expected_ir.2.2.1]; exact run_callstacks_expected W g hcf hsf hc dump
+  · rw [cfg_plainObj]; simp [configOf, Opts.ofGiven, hcf, hsf]
+
+/-- **The `logs` command of the source, interpreted**: the same three options, `formatted_logs`. -/
+theorem logs_command_ir_eq_model {δ τ : Type} (W : World δ τ) (g : Given) (hcf : g.classFilters = [])
+    (hsf : g.subclassFilters = []) (hc : g.color = none) (dump : δ) :
+    run Gen.PyIRCli.prog W Gen.PyIRCli.logs g.args dump =
+      pwcResult (W.formatted "formatted_logs" (plainObj (Opts.ofGiven g)) dump) (Opts.ofGiven g).count ∧
+    cfgOfObj (plainObj (Opts.ofGiven g)) = some (configOf (Opts.ofGiven g)) ∧
+    showOfObj (plainObj (Opts.ofGiven g)) = some (showOf (Opts.ofGiven g)) ∧
+    colorOfObj (plainObj (Opts.ofGiven g)) = some true := by
+  refine ⟨?_, ?_, show_objWith .., color_objWith ..⟩
+  · rw [cli_prog_is_expected, cli_source_is_expected_ir.2.2.2.1]; exact run_logs_expected W g hcf hsf hc dump
+  · rw [cfg_plainObj]; simp [configOf, Opts.ofGiven, hcf, hsf]
+
+/-- **`formatted_traces` of the source, interpreted** (any meaning `M` of `self.traces` / `self._format_trace`): `map` of
+    `self._format_trace(t)` over `self.traces(kdebug, trace_codes)` — the code table handed on AS GIVEN (`None` when
+    omitted: `traces()` picks the default) —, ending with the first exception of the formatter or with that of the
+    listing. -/
+theorem formatted_traces_ir_eq_model {δ ι κ : Type} (M : Methods δ ι κ) (o : Obj) (tc : Option κ) (dump : δ) :
+    runFormatted M Gen.PyIRCli.formattedTraces o tc dump =
+      mapGen (fun t => M.formatter "_format_trace" o t [])
+        (M.source "traces" o [.kdebug, givenArg tc] dump).1 (M.source "traces" o [.kdebug, givenArg tc] dump).2 := by
+  rw [cli_source_is_expected_ir.2.2.2.2.2.2.1]; exact runFormatted_traces M o tc dump
+
+/-- **`formatted_callstacks`**: `map` of `self._format_callstack(t)` over `self.callstacks(kdebug, trace_codes)`. -/
+theorem formatted_callstacks_ir_eq_model {δ ι κ : Type} (M : Methods δ ι κ) (o : Obj) (tc : Option κ) (dump : δ) :
+    runFormatted M Gen.PyIRCli.formattedCallstacks o tc dump =
+      mapGen (fun t => M.formatter "_format_callstack" o t [])
+        (M.source "callstacks" o [.kdebug, givenArg tc] dump).1
+        (M.source "callstacks" o [.kdebug, givenArg tc] dump).2 := by
+  rw [cli_source_is_expected_ir.2.2.2.2.2.2.2.1]; exact runFormatted_callstacks M o tc dump
+
+/-- **`formatted_logs`**: `map` of `self._format_log(t)` over `self.os_log_events(kdebug)`; it takes no code table. -/
+theorem formatted_logs_ir_eq_model {δ ι κ : Type} (M : Methods δ ι κ) (o : Obj) (dump : δ) :
+    runFormatted M Gen.PyIRCli.formattedLogs o none dump =
+      mapGen (fun t => M.formatter "_format_log" o t [])
+        (M.source "os_log_events" o [.kdebug] dump).1 (M.source "os_log_events" o [.kdebug] dump).2 := by
+  rw [cli_source_is_expected_ir.2.2.2.2.2.2.2.2.1]; exact runFormatted_logs M o dump
+
+/-- a world that answers only when the object reads as the filter configuration `want`: every line is `<method>|<item>` -/
+private def probe (want : Cfg) : World (List String × Option PyErr) Unit :=
+  { formatted := fun m o d =>
+      if cfgOfObj o = some want then (d.1.map fun x => m ++ "|" ++ x, d.2) else ([], some .unmodelled)
+    parseAll := fun _ => .error .unmodelled
+    jsonDumps := fun _ _ _ => .error .unmodelled }
+
+-- non-vacuity: the GENERATED commands on concrete option sets and abstract generators
+example : run Gen.PyIRCli.prog (probe { filterTid := some 7, filterProcess := some "launchd", filterClass := [4, 0x31] })
+    Gen.PyIRCli.traces
+    ({ tid := some 7, process := some "launchd", classFilters := [4, 0x31], count := some 1 } : Given).args
+    (["a", "b"], some .eof) = .ran ["formatted_traces|a"] none := by decide +kernel
+example : run Gen.PyIRCli.prog (probe { filterProcess := some "42" }) Gen.PyIRCli.callstacks
+    ({ process := some "42", count := some 2 } : Given).args (["a", "b"], some .eof) =
+    .ran ["formatted_callstacks|a", "formatted_callstacks|b"] (some .eof) := by decide +kernel
+example : run Gen.PyIRCli.prog (probe { filterTid := some 9 }) Gen.PyIRCli.logs ({ tid := some 9 } : Given).args
+    (["x"], none) = .ran ["formatted_logs|x"] none := by decide +kernel
+example : run Gen.PyIRCli.prog (probe {}) Gen.PyIRCli.callstacks ({ classFilters := [4] } : Given).args (["x"], none) =
+    .usage := by decide +kernel
+example : configOf (Opts.ofGiven { tid := some (-3), subclassFilters := [0x040c], process := some "7" }) =
+    { filterTid := some (2 ^ 70 + 3), filterSubclass := [0x040c], filterProcess := some "7" } := by decide
 
 end KdVerif.C13
